@@ -23,6 +23,12 @@ Theorem C18_current_schema_full :
     snd (tstep true (fst (tstep true (trun true h) (TWrite v))) TRead) = Some (Ok v).
 Proof. exact write_read_current_full. Qed.
 
+(* All modelled column types, date and time-of-day columns included: a date comes back as the same day (as midnight
+   UTC), a time of day hh:mm:ss.fraction as the same time (on January 1 of year 0), every value of the other four
+   types as itself. *)
+Theorem C18_roundtrip_columns : forall c v, of_col_type c v -> roundtrip_col c v = Ok v.
+Proof. exact roundtrip_col_ok. Qed.
+
 (* The OLD decoding (roundtrip = every JSON number through float64). *)
 (* The statement fails for int columns: JSON numbers pass through float64.  2^53+1 comes back as 2^53 and the
    largest int64 comes back as the smallest. *)
@@ -73,3 +79,8 @@ Example C18_ex_full :
   /\ roundtrip_n false true TInt (VInt 9223372036854775807) = Ok (VInt (-9223372036854775808))
   /\ roundtrip_n true true TInt (VInt (-9223372036854775808)) = Ok (VInt (-9223372036854775808)).
 Proof. cbn [of_type]. unfold two63. repeat split; try lia; vm_compute; reflexivity. Qed.
+Example C18_ex_columns :
+  of_col_type ColTime (CVTod 45045 500000000) /\ roundtrip_col ColTime (CVTod 45045 500000000) = Ok (CVTod 45045 500000000) /\
+  of_col_type ColDate (CVDate (-719162)) /\ roundtrip_col ColDate (CVDate 19783) = Ok (CVDate 19783) /\
+  instant_of (CVTod 45045 0) = Ok (VTs (-62167174155) 0).
+Proof. cbn [of_col_type]. repeat split; try lia; vm_compute; reflexivity. Qed.
